@@ -477,6 +477,25 @@ def table_writers(repo, field="unacked_reliable"):
             if k is None or (f.cls is not None and (f.cls.name == k.name or f.cls.name in circ)) \
                     or (fw is not None and f".{fw[2]}." in st.path):
                 out.append((f, st))
+    # writes through a local alias (`window = circuit.seen_reliable; window.popleft()`)
+    for f in repo.all_funcs:
+        if f.parent_fn is not None:
+            continue
+        aliases = None
+        for st in stores(f.node, into_defs=True):
+            base = st.path.split(".")[0].replace("[]", "")
+            if "." in st.path or st.kind in ("assign", "augassign") and st.path == base and st.kind == "assign":
+                continue
+            if st.kind not in ("mutcall", "setitem", "delitem", "augsetitem"):
+                continue
+            if aliases is None:
+                aliases = {}
+                for a_ in stores(f.node, into_defs=True):
+                    if a_.kind == "assign" and "." not in a_.path and a_.value is not None and ap(a_.value) \
+                            and ap(a_.value).split(".")[-1] == field and "." in ap(a_.value):
+                        aliases[a_.path] = ap(a_.value)
+            if base in aliases and single_assign(f.node, base) is not None:
+                out.append((f, st))
     return out
 
 
@@ -735,6 +754,24 @@ def check_pairing(ctx, rule: str, names=("collect_acks", "resend_unacked")):
         ctx.ob(rule, f"Circuit.{nm} removes entries from the unacked table", bool(rem), fi.where,
                "no removal left: an acknowledged / exhausted send stays registered and keeps being retransmitted")
         top = fi
+        # a handed-out future may have been cancelled / completed by its awaiter: set_result / set_exception on it
+        # raise InvalidStateError unless a `not <future>.done()` test on that same future dominates the call
+        seen_fns = []
+        for f_ in [top] + [h_ for h_, _ in rem]:
+            if f_ in seen_fns:
+                continue
+            seen_fns.append(f_)
+            for c in calls(f_.node, into_defs=True):
+                if call_attr(c) not in ("set_result", "set_exception") or not isinstance(c.func, ast.Attribute):
+                    continue
+                fut = c.func.value
+                if not (ap(fut) or "").endswith(".completed"):
+                    continue
+                guarded = any(isinstance(e, ast.Call) and call_attr(e) == "done" and isinstance(e.func, ast.Attribute)
+                              and dump(e.func.value) == dump(fut) and not pol for e, pol in facts(c, f_.node))
+                ctx.ob(rule, f"Circuit.{nm}: `{norm(c.func)}` only on a future that is not done yet", guarded, ctx.w(f_, c),
+                       f"no dominating `not {norm(fut)}.done()`: the awaiter may have cancelled the future (wait_for timeout); "
+                       f"completing it then raises InvalidStateError out of {'ack collection (the ack-carrying datagram is lost)' if nm == 'collect_acks' else 'the resend loop (the resend task dies)'}")
         for fi, st in rem:
             total += 1
             stmt = enclosing_stmt(st.node)
@@ -746,7 +783,7 @@ def check_pairing(ctx, rule: str, names=("collect_acks", "resend_unacked")):
             if st.kind == "mutcall" and st.method == "pop" and assigned:
                 r = stmt.targets[0].id
                 # path form first: on every path on which the popped entry is present its future gets completed
-                if _pop_completed_on_all_paths(fi, stmt, r):
+                if _pop_completed_on_all_paths(fi, stmt, r, repo):
                     ctx.ob(rule, f"Circuit.{nm}: removal `{norm(st.node)}` completes the entry's future", True, ctx.w(fi, st.node))
                     continue
                 base = {dump(e) + str(p) for e, p in facts(stmt, fi.node)}
@@ -780,7 +817,14 @@ def check_pairing(ctx, rule: str, names=("collect_acks", "resend_unacked")):
     ctx.stats[f"{rule}.unacked-table removals"] = total
 
 
-def _pop_completed_on_all_paths(fi: FuncInfo, pop_stmt, r: str) -> bool:
+def _done_call(r: str) -> ast.AST:
+    return ast.Call(func=ast.Attribute(value=ast.Attribute(value=ast.Name(id=r, ctx=ast.Load()), attr="completed", ctx=ast.Load()),
+                                       attr="done", ctx=ast.Load()), args=[], keywords=[])
+
+
+def _pop_completed_on_all_paths(fi: FuncInfo, pop_stmt, r: str, repo=None) -> bool:
+    """On every path on which the popped entry is present, its future gets completed - or is known to be done
+    already (the awaiter cancelled it): `entry present and not entry.completed.done()` is excluded by the path."""
     class P(Explorer):
         def on_stmt(self, s_, st_):
             if s_ is pop_stmt:
@@ -804,6 +848,9 @@ def _pop_completed_on_all_paths(fi: FuncInfo, pop_stmt, r: str) -> bool:
     bad = False
     for kind, node, st_ in P().explore(fi.node.body, St(data={"pending": False})):
         if kind != "raise" and st_.data.get("pending"):
+            fs = [(e, pol) for e, pol in st_.env.values()] + [(_done_call(r), False)]
+            if repo is not None and facts_exclude(repo, fs, [ast.Name(id=r, ctx=ast.Load())]):
+                continue      # present and not done is impossible here: the future was already done
             bad = True
     return not bad
 
@@ -1861,6 +1908,18 @@ def check_resend(ctx, rule):
     ctx.ob(rule, "Circuit.resend_unacked: every retransmission restarts the interval (last_resent updated)",
            bool(stamps) and not any(n in reach_s for n in send_nodes), ru.where,
            "a path resends without updating last_resent: the packet is retransmitted on every tick afterwards")
+    # the scan visits every entry: the table is ordered by first send, not by last_resent, so an entry that is
+    # not due says nothing about the entries after it
+    if outer is None and loops:
+        lp = loops[0]
+        early = [x for x in walk(ast.Module(body=lp.body, type_ignores=[]))
+                 if isinstance(x, (ast.Break, ast.Return))
+                 and not any(isinstance(a_, (ast.For, ast.AsyncFor, ast.While)) and a_ is not lp and any(b_ is lp for b_ in ancestors(a_))
+                             for a_ in ancestors(x))]
+        ctx.ob(rule, "Circuit.resend_unacked: the scan over the unacked table has no early exit", not early,
+               ctx.w(ru, early[0]) if early else ru.where,
+               f"`{norm(early[0]) if early else ''}` leaves the loop over the unacked table: entries behind a not-yet-due "
+               f"(or given-up) entry are not looked at in this pass, their retransmission is late by up to a full interval")
     # budget
     decs = [st for st in stores(ru.node) if st.kind == "augassign" and isinstance(st.node.op, ast.Sub)
             and st.path.endswith(".tries_left")]
@@ -1902,8 +1961,9 @@ def check_resend(ctx, rule):
             comp_nodes = [n for c in exc for n in cfg_nodes(cfg, c)]
             after_comp = cfg.reachable(comp_nodes, avoid=lambda n: n in head)
             ordered = not any(n in after_comp for n in rn)
-            uncond = True
-            why_c = ""
+            dep = [("" if pol else "not ") + norm(e) for e, pol in facts(st.node, ru.node) if ".completed" in src(e)]
+            uncond = not dep
+            why_c = f"the removal additionally depends on {dep}"
         else:
             hcfg = CFG(st.helper.node)
             exc = find_calls(st.helper.node, "set_exception")
@@ -2366,7 +2426,11 @@ def r9(ctx):
     ctx.require(isinstance(default, int), "InjectionTracker maxlen default is not a constant")
     pos = names.index("maxlen") - 1
     n = 0
-    for f in repo.cls("ProxiedCircuit", PCIRC).methods.values():
+    # constructions in the proxied circuit itself or in a factory of its module that it calls for them
+    pmod = repo.cls("ProxiedCircuit", PCIRC).module
+    makers = [f for f in repo.all_funcs if f.module is pmod and f.parent_fn is None
+              and not (f.cls is not None and f.cls.name == "InjectionTracker")]
+    for f in makers:
         for c in find_calls(f.node, "InjectionTracker", into_defs=True):
             n += 1
             arg = c.args[pos] if len(c.args) > pos else next((k.value for k in c.keywords if k.arg == "maxlen"), None)
@@ -2393,7 +2457,7 @@ def r9(ctx):
             ctx.ob("C05.R9", f"{f.qual}: {norm(c)} keeps at least the tracker's declared window", val >= default, ctx.w(f, c),
                    f"window {val} (from `{norm(arg)}`) is smaller than InjectionTracker's own {default}: after {val} injections "
                    f"in one direction acks for the proxy's own packets are forwarded and older ids are mistranslated")
-    ctx.floor("C05.R9", "tracker constructions in ProxiedCircuit", n, 2)
+    ctx.floor("C05.R9", "tracker constructions for ProxiedCircuit", n, 1)
 
 
 def run(ctx):
